@@ -323,7 +323,7 @@ def run(ctx):
     for i, rng in ctx.cases("histograms", n_hh):
         n = int(rng.choice([1, 10, 500, 5000]))
         m = rng.normal(size=n)
-        wk = str(rng.choice(["none", "positive", "mixed", "zeros"]))
+        wk = str(rng.choice(["none", "positive", "mixed", "zeros", "cancelling"]))
         w = None
         if wk == "positive":
             w = rng.uniform(0.1, 3, n)
@@ -331,6 +331,9 @@ def run(ctx):
             w = rng.normal(size=n)
         elif wk == "zeros":
             w = rng.uniform(0.1, 3, n) * (rng.random(n) < 0.7)
+        elif wk == "cancelling":
+            # sideband-subtraction style weights: populated bins whose weights sum to exactly zero occur
+            w = rng.choice([1.0, -1.0, 0.5, -0.5], n)
         nb = int(rng.integers(1, 40))
         rg = (-1.5, 2.0)
         desc = {"n": n, "weights": wk, "bins": nb, "range": rg}
